@@ -9,7 +9,7 @@ NOQ = M("NOQ")
 # the repairs present in /repo (see known_findings.json "fixed" and DESIGN section 6)
 FIXES_NOW = ["perf", "remove", "aq", "sig", "uniq", "concat"]
 
-ALL_KINDS = ["FC", "TCONV", "BMM", "EMB", "EW2", "EW1", "EW1A", "SAMEIN0", "SAMEIN1", "SAMEIN3", "SPLIT", "CONCAT", "CONCAT3",
+ALL_KINDS = ["FC", "TCONV", "BMM", "BMMC", "EMB", "EW2", "EW1", "EW1A", "SAMEIN0", "SAMEIN1", "SAMEIN3", "SPLIT", "CONCAT", "CONCAT3",
              "FIXSL", "FIXT", "UNSUP", "UNSUP2"]
 
 MODES_W_RICH = [NOQ, M("SRQ", "a8a", "w8c"), M("SRQ", "a16", "w8c"), M("SRQ", "a8s", "w8t"), M("DRQ", "-", "w8c"),
@@ -22,7 +22,7 @@ MODES_A_3 = [NOQ, M("SRQ", "a8a", "w8c"), M("SRQ", "a16", "w8c")]
 IO_2 = [NOQ, M("SRQ", "a8a", "w8c")]
 
 
-WEIGHT_KINDS = ("FC", "TCONV", "BMM", "EMB")
+WEIGHT_KINDS = ("FC", "TCONV", "BMM", "BMMC", "EMB")
 
 
 def km_generic(kinds, modes_w, modes_a):
@@ -33,7 +33,7 @@ def km_generic(kinds, modes_w, modes_a):
     if k in ("UNSUP", "UNSUP2"):
       km[k] = [NOQ]
     elif k in WEIGHT_KINDS:
-      km[k] = [m for m in modes_w if not (k == "EMB" and '"SRQ"' in m) and not (k == "BMM" and '"F16"' in m)]
+      km[k] = [m for m in modes_w if not (k == "EMB" and '"SRQ"' in m) and not (k in ("BMM", "BMMC") and '"F16"' in m)]
     else:
       km[k] = list(modes_a)
   return km
